@@ -64,6 +64,9 @@ func BulkOps() []BulkOp {
 		{Name: "updatefunc-invalid-result-in-the-middle", Op: func(n int) m.Op {
 			return m.Op{K: "updateFunc", Q: &m.Q{Coll: "a", Crit: m.Leaf("gte", "x", int64(0))}, Upd: &m.Updater{Set: map[string]interface{}{"x": int64(50)}, Style: "inplace", BadFor: ID(n/2 + 1)}}
 		}},
+		// the new value differs from the old one only in its Go type (1 -> 1.0), or not at all: still an update of every matched document
+		mk("update-type-only", m.Op{K: "update", Q: all(m.Leaf("eq", "g", int64(1))), Set: map[string]interface{}{"g": float64(1), "x": float64(2)}}),
+		mk("updatefunc-same-value", m.Op{K: "updateFunc", Q: all(m.Leaf("eq", "g", int64(2))), Upd: upd("inplace", "g", int64(2))}),
 		mk("updatefunc-remove", m.Op{K: "updateFunc", Q: all(m.Leaf("eq", "g", int64(0))), Upd: &m.Updater{Nil: true}}),
 		{Name: "drop-and-recreate", Op: func(int) m.Op { return m.Op{K: "dropColl", Coll: "a"} }, Then: func(int) []m.Op {
 			return []m.Op{{K: "createColl", Coll: "a"}, {K: "insert", Coll: "a", Docs: []m.Doc{bulkDoc(0, 0)}}}
